@@ -57,6 +57,17 @@ def gen_cfg(g):
     if g.random() < 0.3:
         cfg["opts"]["n_final_samples"] = int(g.choice([cfg["n"] // 2, 3 * cfg["n"]]))
     cfg["flow"]["truncate"] = bool(g.random() < 0.5)
+    if g.random() < 0.3 and cfg["sampler"] != "blackjax_smc":
+        # likelihood exactly zero on part of the prior support: zero-weight particles in the initial population
+        c0 = t.coords[0]
+        if c0.kind == "box":
+            # cut placed below the proposal's centre, so that at least about half of the draws keep a non-zero likelihood
+            from ..harness import proposal_for
+
+            fk = proposal_for(t, truncate=False, widen=cfg["flow"]["widen"], shift=cfg["flow"].get("shift", 0.0))
+            cut = float(fk["loc"][0] - g.uniform(0.0, 1.0) * fk["scale"][0])
+            if c0.lo < cut < c0.hi:
+                cfg["cut_below"] = cut
     return cfg
 
 
@@ -67,10 +78,11 @@ def run_case(case):
     viol = []
     g = np.random.default_rng(case["seed"])
     cfg = gen_cfg(g)
-    shown = {k: cfg[k] for k in ("xp", "dtype", "sampler", "n", "opts", "precond", "kernel_steps")}
+    shown = {k: cfg.get(k) for k in ("xp", "dtype", "sampler", "n", "opts", "precond", "kernel_steps", "cut_below")}
     where = f"{shown}"
     base = recorded.record(cfg)
     counters["runs"] += 1
+    counters["runs_with_zero_weight_particles"] += int(cfg.get("cut_below") is not None)
     if base.exc is not None:
         raise base.exc
     recorded.judge_evidence(base, where, viol, counters)
